@@ -43,6 +43,7 @@ func (p *Program) newExec(mode ExecMode) *Exec {
 // inv.init / inv.pres obligation is not discharged are dropped and the function is re-run, and
 // candidate variants are tried in turn. Surviving candidates are ordinary proved invariants.
 func (p *Program) genObligations(fn *ssa.Function, mode ExecMode, rel *relCtx) (rep *FnReport) {
+	p.alignLoops(fn, mode, rel)
 	began := time.Now()
 	for iter := 0; iter < 8; iter++ {
 		rep = p.genObligationsOnce(fn, mode, rel)
@@ -97,6 +98,94 @@ func (p *Program) genObligations(fn *ssa.Function, mode ExecMode, rel *relCtx) (
 		}
 	}
 	return rep
+}
+
+// alignLoops: contracts address loops by ordinal. When a change removes or adds a loop, the
+// ordinals of the remaining loops shift; every order-preserving assignment of the annotated loops
+// to the loops of the code is tried and the one whose user invariants fail least is kept (the
+// identity when the counts agree, i.e. always on the unchanged tree). Whatever is chosen, every
+// obligation still has to be discharged: the choice can only avoid spurious failures.
+func (p *Program) alignLoops(fn *ssa.Function, mode ExecMode, rel *relCtx) {
+	key := p.keyOf(fn)
+	con := p.contracts[key]
+	if con == nil || len(con.Loops) == 0 || rel != nil {
+		return
+	}
+	n := len(p.loopsOf(fn))
+	base, known := p.baseLoops[key]
+	if !known || base < 0 || base == n || n == 0 {
+		return // same number of loops as when the contract was written: ordinals are what they were
+	}
+	var ann []int
+	for k := range con.Loops {
+		ann = append(ann, k)
+	}
+	sort.Ints(ann)
+	if n > 6 || len(ann) > 6 {
+		return
+	}
+	// candidates: order-preserving correspondences between the loops of the code (1..n) and the loops
+	// the contract was written for (1..base); a code loop mapped to an ordinal without annotation
+	// simply has none
+	var cands []map[int]int
+	small, large := n, base
+	codeIsSmall := true
+	if n > base {
+		small, large = base, n
+		codeIsSmall = false
+	}
+	var rec func(start int, chosen []int)
+	rec = func(start int, chosen []int) {
+		if len(chosen) == small {
+			m := map[int]int{}
+			for i, c := range chosen {
+				if codeIsSmall {
+					m[i+1] = c + 1 // code loop i+1 is the contract's loop c+1
+				} else {
+					m[c+1] = i + 1 // code loop c+1 is the contract's loop i+1
+				}
+			}
+			cands = append(cands, m)
+			return
+		}
+		for c := start; c < large; c++ {
+			rec(c+1, append(append([]int(nil), chosen...), c))
+		}
+	}
+	rec(0, nil)
+	if len(cands) == 0 {
+		return
+	}
+	if len(cands) == 1 {
+		p.setLoopRemap(key, cands[0])
+		return
+	}
+	best, bestScore := -1, 1<<30
+	for i, m := range cands {
+		p.setLoopRemap(key, m)
+		rep := p.genObligationsOnce(fn, mode, rel)
+		score := 0
+		if rep.Panic != "" || rep.Aborted != "" {
+			score = 1 << 20
+		} else {
+			var invs []*Obligation
+			for _, o := range rep.Obs {
+				if strings.HasPrefix(o.Kind, "inv.") && !strings.Contains(o.Kind, ".auto.") && !strings.HasSuffix(o.Kind, ".range") {
+					invs = append(invs, o)
+				}
+			}
+			discharge(invs, dischargeOpts{timeoutMs: 3000, workers: 16})
+			for _, o := range invs {
+				if o.Result == nil || o.Result.Status != "unsat" {
+					score++
+				}
+			}
+		}
+		if score < bestScore {
+			best, bestScore = i, score
+		}
+	}
+	p.setLoopRemap(key, cands[best])
 }
 
 var genBudget = 90 * time.Second
